@@ -1,6 +1,8 @@
 package main
 
 import (
+	"os/signal"
+	"syscall"
 	"encoding/json"
 	"flag"
 	"fmt"
@@ -112,6 +114,16 @@ func main() {
 		os.Exit(2)
 	}
 	defer os.RemoveAll(dir)
+	{
+		// a reader that stops early (grep -q in the selftest) or a kill must not leave the scratch directory behind
+		sigc := make(chan os.Signal, 1)
+		signal.Notify(sigc, syscall.SIGPIPE, syscall.SIGTERM, syscall.SIGINT, syscall.SIGHUP)
+		go func() {
+			<-sigc
+			os.RemoveAll(dir)
+			os.Exit(3)
+		}()
+	}
 	if *fn != "" {
 		var res *FuncResult
 		if strings.HasPrefix(*fn, "arith:") {
